@@ -406,6 +406,16 @@ def gen_experiment(r, g, n_pre=None, n_test=None, n_cool=None, n_ctl=None, n_trt
     date_style = weighted(r, [('ts', 8), ('tz', 1), ('ns', 1)])
   if date_style == 'tz':
     dates = [pd.Timestamp(origin + datetime.timedelta(days=i), tz='UTC') for i in range(D)]
+  elif date_style == 'int0':          # day numbers 0 .. D-1
+    dates = list(range(D))
+  elif date_style == 'int1':          # day numbers 1 .. D
+    dates = list(range(1, D + 1))
+  elif date_style == 'yyyymmdd':      # integer calendar labels
+    dates = [int((origin + datetime.timedelta(days=i)).strftime('%Y%m%d')) for i in range(D)]
+  elif date_style == 'iso':           # text dates
+    dates = [(origin + datetime.timedelta(days=i)).isoformat() for i in range(D)]
+  elif date_style == 'date':          # datetime.date objects
+    dates = [origin + datetime.timedelta(days=i) for i in range(D)]
   elif date_style == 'ns':
     dates = [pd.Timestamp(origin + datetime.timedelta(days=i)).as_unit('ns') for i in range(D)]
   else:
@@ -482,9 +492,11 @@ def gen_experiment(r, g, n_pre=None, n_test=None, n_cool=None, n_ctl=None, n_trt
     int_dtype = r.random() < 0.2 and cost_scale >= 1.0
   if int_dtype:
     # whole-number metrics stored as int64 (sales counts, whole-currency spend)
-    frame['response'] = np.round(frame['response'] * 10).astype('int64')
-    frame['cost'] = np.round(frame['cost'] * 10).astype('int64')
-  return {'frame': frame, 'int_dtype': bool(int_dtype), 'n_pre': n_pre, 'n_test': n_test, 'n_cool': n_cool, 'n_gap': n_gap,
+    # int_dtype may also give the unit: 10 (default, tenths) or e.g. 10**6 (micros)
+    unit_ = 10 if int_dtype is True else int(int_dtype)
+    frame['response'] = np.round(frame['response'] * unit_).astype('int64')
+    frame['cost'] = np.round(frame['cost'] * unit_).astype('int64')
+  return {'frame': frame, 'int_dtype': (int_dtype if int_dtype else False), 'n_pre': n_pre, 'n_test': n_test, 'n_cool': n_cool, 'n_gap': n_gap,
           'n_after': n_after, 'n_ctl': n_ctl, 'n_trt': n_trt, 'cost_mode': cost_mode,
           'shape': shape, 'extras': sorted(extras), 'dates': dates, 'periods': periods, 'cost_scale': cost_scale,
           'noise_level': noise_level, 'date_style': date_style,
